@@ -12,6 +12,7 @@ A case that neither calls BLAS correctly nor rejects is a silent miscomputation.
 """
 import itertools
 import os
+import re
 
 from vlib import common, irval, viewops, witness
 from vlib.poly import Poly as P, sign, POS, NONNEG, ZERO, NEG, NONPOS
@@ -891,6 +892,277 @@ def syrk_rule(rep, wd):
     return n
 
 
+# -----------------------------------------------------------------------------------------------------------------
+# R13.forms: every lazy-range / operator / convenience form of an operation issues exactly the BLAS call sequence of its iterator-level (`_n`)
+# form on the same operands (same routine, same counts, operands, increments / leading dimensions, scalars; results stored through the same
+# pointer).  The `_n` forms themselves are decided by B13.gemm / B13.gemv / B13.l1; this rule carries those verdicts over to the sibling forms.
+FORMS_PRE = r"""
+#include <boost/multi/array.hpp>
+#include <boost/multi/adaptors/blas/axpy.hpp>
+#include <boost/multi/adaptors/blas/copy.hpp>
+#include <boost/multi/adaptors/blas/swap.hpp>
+#include <boost/multi/adaptors/blas/scal.hpp>
+#include <boost/multi/adaptors/blas/dot.hpp>
+#include <boost/multi/adaptors/blas/nrm2.hpp>
+#include <boost/multi/adaptors/blas/asum.hpp>
+#include <boost/multi/adaptors/blas/iamax.hpp>
+#include <boost/multi/adaptors/blas/gemm.hpp>
+#include <boost/multi/adaptors/blas/gemv.hpp>
+#include <complex>
+#include <math.h>
+#include <stdlib.h>
+#include <utility>
+namespace multi = boost::multi;
+namespace blas = boost::multi::blas;
+using cplx = std::complex<double>;
+struct Ctx {
+	void gemm(char ta, char tb, long m, long n, long k, cplx const* alpha, cplx const* a, long lda, cplx const* b, long ldb, cplx const* beta, cplx* c, long ldc);
+	void gemv(char t, long m, long n, cplx const* alpha, cplx const* a, long lda, cplx const* x, long incx, cplx const* beta, cplx* y, long incy);
+};
+namespace boost::multi::blas { template<> struct is_context<Ctx> : std::true_type {}; template<> struct is_context<Ctx&> : std::true_type {}; }
+static inline auto mk0() { return multi::layout_t<0>{multi::monostate{}, multi::monostate{}, 0, 1}; }
+static inline auto mk1(long s0, long o0, long n0) { return multi::layout_t<1>{mk0(), s0, o0, n0}; }
+static inline auto mk2(long s0, long o0, long n0, long s1, long o1, long n1) { return multi::layout_t<2>{mk1(s1, o1, n1), s0, o0, n0}; }
+#define LP double* xb, long x0, double* yb, long y0, long n, double al, double* rp
+#define VEC multi::subarray<double, 1> x(mk1(x0, 0, n*x0), xb), y(mk1(y0, 0, n*y0), yb)
+#define ZP cplx* xb, long x0, cplx* yb, long y0, long n, cplx* rp
+#define ZVEC multi::subarray<cplx, 1> x(mk1(x0, 0, n*x0), xb), y(mk1(y0, 0, n*y0), yb)
+#define MP Ctx* ctx, cplx* ab, long a0, long M, long K, cplx* bb, long b0, long N, cplx* cb, long c0, double ar, double ai
+#define MOPS multi::subarray<cplx, 2> a(mk2(a0, 0, M*a0, 1, 0, K), ab), b(mk2(b0, 0, K*b0, 1, 0, N), bb), c(mk2(c0, 0, M*c0, 1, 0, N), cb); cplx const al{ar, ai}
+#define GP Ctx* ctx, cplx* ab, long a0, long M, long K, cplx* xb, long x0, cplx* yb, long y0, double ar, double ai
+#define GOPS multi::subarray<cplx, 2> a(mk2(a0, 0, M*a0, 1, 0, K), ab); multi::subarray<cplx, 1> x(mk1(x0, 0, K*x0), xb), y(mk1(y0, 0, M*y0), yb); cplx const al{ar, ai}
+using namespace multi::blas::operators;
+"""
+
+# (family, parameter macro, operand macro, reference body, [(form name, body)])
+FORMS = [
+    ("axpy", "LP", "VEC", "blas::axpy_n(al, x.begin(), n, y.begin());", [
+        ("axpy(alpha, x, y)", "blas::axpy(al, x, y);"),
+        ("y += axpy(alpha, x)", "y += blas::axpy(al, std::as_const(x));"),
+        ("y = axpy(alpha, x)", "y = blas::axpy(al, std::as_const(x));"),
+        ("copy_n(axpy(alpha, x).begin(), n, y.begin())", "auto&& r = blas::axpy(al, std::as_const(x)); copy_n(r.begin(), n, y.begin());"),
+        ("copy(axpy(alpha, x).begin(), end, y.begin())", "auto&& r = blas::axpy(al, std::as_const(x)); copy(r.begin(), r.end(), y.begin());"),
+    ]),
+    ("axpy(-alpha)", "LP", "VEC", "blas::axpy_n(-al, x.begin(), n, y.begin());", [
+        ("y -= axpy(alpha, x)", "y -= blas::axpy(al, std::as_const(x));"),
+    ]),
+    ("axpy(1)", "LP", "VEC", "blas::axpy_n(1.0, x.begin(), n, y.begin());", [
+        ("axpy(x, y)", "blas::axpy(x, y);"),
+        ("y += x", "y += x;"),
+    ]),
+    ("axpy(-1)", "LP", "VEC", "blas::axpy_n(-1.0, x.begin(), n, y.begin());", [
+        ("y -= x", "y -= x;"),
+    ]),
+    ("copy", "LP", "VEC", "blas::copy_n(x.begin(), n, y.begin());", [
+        ("copy(x, y)", "blas::copy(x, y);"),
+        ("y = copy(x)", "y = blas::copy(x);"),
+        ("y << x", "y << x;"),
+    ]),
+    ("swap", "LP", "VEC", "blas::swap_n(x.begin(), n, y.begin());", [
+        ("swap(x, y)", "blas::swap(x, y);"),
+        ("swap(x.begin(), x.end(), y.begin())", "blas::swap(x.begin(), x.end(), y.begin());"),
+    ]),
+    ("scal", "LP", "VEC", "blas::scal_n(al, x.begin(), n);", [
+        ("scal(alpha, x)", "blas::scal(al, x);"),
+        ("scal(alpha, x.begin(), x.end())", "blas::scal(al, x.begin(), x.end());"),
+        ("x *= scal(alpha)", "x *= blas::scal(al);"),
+        ("x *= alpha", "x *= al;"),
+    ]),
+    ("dot", "LP", "VEC", "blas::dot_n(x.begin(), n, y.begin(), rp);", [
+        ("dot(x, y, r)", "blas::dot(x, y, *rp);"),
+        ("r = dot(x, y)", "*rp = blas::dot(x, y);"),
+        ("r = +dot(x, y)", "*rp = +blas::dot(x, y);"),
+        ("r = (x, y)", "*rp = (x, y);"),
+    ]),
+    ("nrm2", "LP", "VEC", "blas::nrm2_n(x.begin(), n, rp);", [
+        ("nrm2(x, r)", "blas::nrm2(x, *rp);"),
+        ("r = nrm2(x)", "*rp = blas::nrm2(x);"),
+        ("r = +nrm2(x)", "*rp = +blas::nrm2(x);"),
+        ("r = abs(x)", "*rp = abs(x);"),
+    ]),
+    ("asum", "LP", "VEC", "blas::asum_n(x.begin(), n, rp);", [
+        ("asum(x, r)", "blas::asum(x, *rp);"),       # r = asum(x) does not compile for view operands (its proxy takes the address of the view)
+    ]),
+    ("iamax", "LP", "VEC", "return blas::iamax_n(x.begin(), n);", [
+        ("iamax(x)", "return blas::iamax(x);"),
+        ("iamax(x.begin(), x.end())", "return blas::iamax(x.begin(), x.end());"),
+        ("amax(x) - x.begin()", "return blas::amax(x) - x.begin();"),
+    ]),
+    ("dot<z>", "ZP", "ZVEC", "blas::dot_n(x.begin(), n, y.begin(), rp);", [
+        ("dot(x, y, r)", "blas::dot(x, y, *rp);"),
+        ("r = dot(x, y)", "*rp = blas::dot(x, y);"),
+    ]),
+    ("dot<z>(conj x)", "ZP", "ZVEC", "blas::dot_n(blas::conj(x).begin(), n, y.begin(), rp);", [
+        ("dot(C(x), y, r)", "blas::dot(blas::C(x), y, *rp);"),
+        ("r = dot(conj(x), y)", "*rp = blas::dot(blas::conj(x), y);"),
+    ]),
+    ("dot<z>(conj y)", "ZP", "ZVEC", "blas::dot_n(x.begin(), n, blas::conj(y).begin(), rp);", [
+        ("dot(x, C(y), r)", "blas::dot(x, blas::C(y), *rp);"),
+        ("r = dot(x, conj(y))", "*rp = blas::dot(x, blas::conj(y));"),
+    ]),
+    ("gemm(beta=0)", "MP", "MOPS", "blas::gemm_n(ctx, al, a.begin(), M, b.begin(), cplx{0.0, 0.0}, c.begin());", [
+        ("gemm(alpha, a, b, 0, c)", "blas::gemm(ctx, al, a, b, cplx{0.0, 0.0}, c);"),
+        ("c = gemm(alpha, a, b)", "c = blas::gemm(ctx, al, a, b);"),
+        ("copy_n(gemm(alpha, a, b).begin(), M, c.begin())", "auto&& r = blas::gemm(ctx, al, a, b); copy_n(r.begin(), M, c.begin());"),
+        ("copy(gemm(alpha, a, b).begin(), end, c.begin())", "auto&& r = blas::gemm(ctx, al, a, b); copy(r.begin(), r.end(), c.begin());"),
+        ("uninitialized_copy_n(gemm(alpha, a, b).begin(), M, c.begin())", "auto&& r = blas::gemm(ctx, al, a, b); uninitialized_copy_n(r.begin(), M, c.begin());"),
+    ]),
+    ("gemm(beta=1)", "MP", "MOPS", "blas::gemm_n(ctx, al, a.begin(), M, b.begin(), cplx{1.0, 0.0}, c.begin());", [
+        ("gemm(alpha, a, b, 1, c)", "blas::gemm(ctx, al, a, b, cplx{1.0, 0.0}, c);"),
+        ("c += gemm(alpha, a, b)", "c += blas::gemm(ctx, al, a, b);"),
+    ]),
+    ("gemv(beta=0)", "GP", "GOPS", "blas::gemv_n(ctx, al, a.begin(), M, x.begin(), cplx{0.0, 0.0}, y.begin());", [
+        ("gemv(alpha, a, x, 0, y)", "blas::gemv(ctx, al, a, x, cplx{0.0, 0.0}, y);"),
+        ("y = gemv(alpha, a, x)", "y = blas::gemv(ctx, al, a, x);"),
+        ("copy_n(gemv(alpha, a, x).begin(), M, y.begin())", "auto&& r = blas::gemv(ctx, al, a, x); copy_n(r.begin(), M, y.begin());"),
+        ("copy(gemv(alpha, a, x).begin(), end, y.begin())", "auto&& r = blas::gemv(ctx, al, a, x); copy(r.begin(), r.end(), y.begin());"),
+    ]),
+    ("gemv(beta=1)", "GP", "GOPS", "blas::gemv_n(ctx, al, a.begin(), M, x.begin(), cplx{1.0, 0.0}, y.begin());", [
+        ("gemv(alpha, a, x, 1, y)", "blas::gemv(ctx, al, a, x, cplx{1.0, 0.0}, y);"),
+        ("y += gemv(alpha, a, x)", "y += blas::gemv(ctx, al, a, x);"),
+    ]),
+]
+
+# argument positions of the recorded external routines that are scalars passed by address: (position, number of 8-byte words)
+FORM_ROUTINES = {
+    "daxpy_": {0: 1, 1: 1, 3: 1, 5: 1}, "dcopy_": {0: 1, 2: 1, 4: 1}, "dswap_": {0: 1, 2: 1, 4: 1}, "dscal_": {0: 1, 1: 1, 3: 1},
+    "ddot_": {0: 1, 2: 1, 4: 1}, "dnrm2_": {0: 1, 2: 1}, "dasum_": {0: 1, 2: 1}, "idamax_": {0: 1, 2: 1},
+    "zdotc_": {0: 1, 2: 1, 4: 1}, "zdotu_": {0: 1, 2: 1, 4: 1}, "zgemv_": {0: 1, 1: 1, 2: 1, 3: 2, 5: 1, 7: 1, 8: 2, 10: 1},
+    "_ZN3Ctx4gemmEcclllPKSt7complexIdES3_lS3_lS3_PS1_l": {6: 2, 11: 2}, "_ZN3Ctx4gemvEcllPKSt7complexIdES3_lS3_lS3_PS1_l": {4: 2, 9: 2},
+}
+
+
+FORM_OUTPUTS = {"zgemv_": 9}
+
+
+def forms_rule(rep, wd):
+    fns = []
+    out = [FORMS_PRE]
+    for fi, (fam, params, ops_, ref, forms) in enumerate(FORMS):
+        ret = "long" if ref.startswith("return") else "void"
+        out.append('extern "C" %s f%d_ref(%s) { %s; %s }' % (ret, fi, params, ops_, ref))
+        for k, (name, body) in enumerate(forms):
+            out.append('extern "C" %s f%d_%d(%s) { %s; %s }' % (ret, fi, k, params, ops_, body))
+            fns.append((fi, k, fam, name, params))
+    n = 0
+    # one translation unit per family so that a form that stops compiling is reported for that family alone
+    mods = {}
+    for fi, (fam, params, ops_, ref, forms) in enumerate(FORMS):
+        src = os.path.join(wd, "forms_%d.cpp" % fi)
+        with open(src, "w") as fh:
+            fh.write(FORMS_PRE + "\n".join(l for l in out[1:] if l.startswith('extern "C" %s f%d_' % ("long" if ref.startswith("return") else "void", fi))) + "\n")
+        mods[fi] = src
+
+    def build(fi):
+        try:
+            text = irval.emit_ir(mods[fi], mods[fi][:-4] + ".ll", defines=("-DNDEBUG", "-fno-vectorize", "-fno-slp-vectorize", "-mllvm", "-inline-threshold=1000000"))
+            return fi, irval.parse_module(text), None
+        except common.AnalysisBroken as e:
+            return fi, None, str(e)
+    built = {}
+    for fi, mod, err in witness.parallel(build, sorted(mods)):
+        built[fi] = (mod, err)
+        rep.units.add("forms_%d.cpp" % fi)
+    fl = lambda nm: irval.atom("float", nm)
+    for fi, (fam, params, ops_, ref, forms) in enumerate(FORMS):
+        mod, err = built[fi]
+        if mod is None:
+            m = re.search(r"error: (.*)", err)
+            rep.break_("R13.forms: the forms of %s do not compile: %s" % (fam, (m.group(1) if m else err)[:200]))
+            continue
+        ev = irval.Evaluator(*mod)
+        ev.record_external = lambda c: c in FORM_ROUTINES
+
+        def model(callee, vals, derefs, idx):
+            # output parameter of the routine (the result vector of the 1 x n matrix-vector form of the complex dot product)
+            outp = FORM_OUTPUTS.get(callee)
+            if outp is None or not isinstance(vals[outp], P) or not any(sy.startswith("stack") for sy in vals[outp].symbols()):
+                return []
+            return [(vals[outp] + 8 * j, irval.atom("extout", callee, idx, j)) for j in range(2)]
+        ev.external_model = model
+        signs = {"xb": POS, "yb": POS, "dxy": POS, "xp": NONNEG, "yp": NONNEG, "nn": NONNEG, "rp": POS, "ctx": POS, "ab": POS, "bb": POS, "cb": POS,
+                 "mx": NONNEG, "nx": NONNEG, "kx": NONNEG, "ap": NONNEG, "bp": NONNEG, "cp": NONNEG}
+        M, N, K = 2 + A("mx"), 2 + A("nx"), 2 + A("kx")
+        if params in ("LP", "ZP"):
+            arglists = []
+            for xs, ys in itertools.product(("1", ">1"), repeat=2):
+                x0 = P.const(1) if xs == "1" else 2 + A("xp")
+                y0 = P.const(1) if ys == "1" else 2 + A("yp")
+                al = [fl("al")] if params == "LP" else []
+                arglists.append(("incx%s incy%s" % (xs, ys), [A("xb"), x0, A("xb") + A("dxy"), y0, 1 + A("nn")] + al + [A("rp")]))
+        elif params == "MP":
+            arglists = [("row-major padded", [A("ctx"), A("ab"), K + A("ap"), M, K, A("bb"), N + A("bp"), N, A("cb"), N + A("cp"), fl("ar"), fl("ai")])]
+        else:
+            arglists = [("row-major padded, inc%s" % t, [A("ctx"), A("ab"), K + A("ap"), M, K, A("xb"), x0, A("yb"), y0, fl("ar"), fl("ai")])
+                        for t, x0, y0 in (("1", P.const(1), P.const(1)), (">1", 2 + A("xp"), 2 + A("yp")))]
+
+        def fzero(w_):
+            return P.const(0) if w_ == irval.atom("float", "0.000000e+00") else w_
+
+        def observe(fn, args):
+            r = ev.run(fn, args, signs)
+            calls = []
+            for callee, vals, der, stk in ev.extcalls:
+                norm = []
+                for i, v in enumerate(vals):
+                    w = FORM_ROUTINES[callee].get(i)
+                    if w is None:
+                        norm.append(v)
+                    else:
+                        norm.append(tuple(fzero(stk.get(v + 8 * j)) for j in range(w)) if isinstance(v, P) and v in stk else ("not a stack temporary written on this path", v))
+                calls.append((callee, tuple(norm)))
+            mem = {k_: v for k_, v in getattr(ev, "mem", {}).items() if not any(sy.startswith("stack") for sy in k_.symbols())}
+            # a result computed into a local and then copied out is the same as passing the destination to the routine
+            for ci, (callee, nargs) in enumerate(calls):
+                outp = FORM_OUTPUTS.get(callee)
+                if outp is None:
+                    continue
+                for dest in [k_ for k_, v in mem.items() if v == irval.atom("extout", callee, ci + 1, 0)]:
+                    if mem.get(dest + 8) == irval.atom("extout", callee, ci + 1, 1):
+                        nargs = list(nargs)
+                        nargs[outp] = dest
+                        calls[ci] = (callee, tuple(nargs))
+                        del mem[dest], mem[dest + 8]
+            return calls, mem, (r if isinstance(r, P) else None)
+        for tag, args in arglists:
+            try:
+                want = observe("f%d_ref" % fi, args)
+            except (irval.Inconclusive, irval.AssertFires) as e:
+                rep.inconclusive("R13.forms:%s[%s]" % (fam, tag), "R13.forms", "reference form: %s" % e)
+                continue
+            if not want[0]:
+                rep.inconclusive("R13.forms:%s[%s]" % (fam, tag), "R13.forms", "the reference form issues no recorded BLAS call")
+                continue
+            for k, (name, body) in enumerate(forms):
+                key = "R13.forms:%s ~ %s[%s]" % (name, fam, tag)
+                n += 1
+                try:
+                    got = observe("f%d_%d" % (fi, k), args)
+                except irval.AssertFires as e:
+                    rep.violated(key, "R13.forms", "%s aborts / throws on operands its iterator-level form accepts: %s" % (name, e), dict(body=body))
+                    continue
+                except irval.Inconclusive as e:
+                    rep.inconclusive(key, "R13.forms", str(e))
+                    continue
+                bad = []
+                if [c[0] for c in got[0]] != [c[0] for c in want[0]]:
+                    bad.append("calls %s, the iterator-level form issues %s" % ([c[0] for c in got[0]], [c[0] for c in want[0]]))
+                else:
+                    for (cg, ag), (cw, aw) in zip(got[0], want[0]):
+                        for i, (x_, y_) in enumerate(zip(ag, aw)):
+                            if x_ != y_:
+                                bad.append("%s argument %d is %r, the iterator-level form passes %r" % (cg.split("_")[0] if cg.endswith("_") else "Ctx::" + ("gemm" if "gemm" in cg else "gemv"), i, x_, y_))
+                if got[1] != want[1]:
+                    bad.append("result stored as %r, the iterator-level form stores %r" % (got[1], want[1]))
+                if got[2] != want[2]:
+                    bad.append("returns %r, the iterator-level form returns %r" % (got[2], want[2]))
+                if bad:
+                    rep.violated(key, "R13.forms", "%s does not issue the BLAS call of %s: %s" % (name, ref.rstrip(";"), "; ".join(bad[:4])), dict(problems=bad, body=body, reference=ref))
+                else:
+                    rep.ok(key, "R13.forms", None)
+    return n
+
+
 def run(tier):
     rep = common.Report("C13", tier, "other",
                         "one obligation per (dispatcher variant, size case, layout case of each operand): the BLAS call issued on that case denotes the product, "
@@ -1047,6 +1319,8 @@ def run(tier):
     rep.need_instances("B13.trsm cases", ntr, 48)
     nl1 = level1(rep, wd)
     rep.need_instances("B13.l1 wrapper cases", nl1, 100)
+    nf = forms_rule(rep, wd)
+    rep.need_instances("R13.forms sibling forms compared", nf, 120)
     rep.extra["distinct_blas_calls"] = {"%s %s" % k: v for k, v in sorted(leaves.items())}
     rep.extra["rejected_although_expressible"] = nrej_expressible
     rep.need_instances("B13 cases evaluated", ncases, 300)
